@@ -40,7 +40,10 @@ TResp ==
 
 TAdv == Consume("adv") /\ Advance(Ev.d) /\ UNCHANGED len
 
-TNext == TReset \/ TResp \/ TAdv
+\* many other sequences were opened (their answers are not part of this history: Isolation)
+TBurst == Consume("burst") /\ UNCHANGED vars
+
+TNext == TReset \/ TResp \/ TAdv \/ TBurst
 
 TraceSpec == TInit /\ [][TNext]_tvars
 
